@@ -1254,6 +1254,11 @@ func (x *Exec) assign(l ast.Expr, v Term, env *Env) {
 			nv := x.W.Mk(cur.Sort, Store(dom, k, True), Store(val, k, x.coerce(v, arrayElem(val.Sort))), ncard)
 			nv.GoT = xt
 			x.assign(l.X, nv, env)
+			// execution continues past a map store only if the map was not nil (the nil-map store itself is not
+			// a checked safety obligation: see DESIGN 9.12)
+			if mt := derefType(xt); mt != nil {
+				x.W.AddFact(env.pc, x.nilCompare(token.NEQ, nv, mt, l.X, env))
+			}
 		default:
 			unsupported("index assign on %s", xt)
 		}
